@@ -82,7 +82,7 @@ class C05(Prop):
     def fixed_cases(self, tier):
         st = [{'op': 'map', 'f': 'dbl'}, {'persist': True}, {'op': 'map', 'f': 'add1'}]
         lin = {'src': [[1, 2], [3]], 'stages': st}
-        return [
+        return [{'kind': 'twin-empty', 'n': n, 'persist_at': pa} for n in (1, 2, 3) for pa in ([0], [0, 1], ['result'], [1, 'result'])] + [
             {'lineages': [lin], 'timeout': None, 'history': [{'kind': 'collect', 'lineage': 0, 'upto': 3},
                                                               {'kind': 'unpersist', 'lineage': 0, 'upto': 2},
                                                               {'kind': 'collect', 'lineage': 0, 'upto': 3}]},
@@ -100,17 +100,50 @@ class C05(Prop):
         ]
 
     def nontrivial(self, case):
+        if case.get('kind') == 'twin-empty':
+            return True
         return any('persist' in s for l in case['lineages'] for s in l['stages']) and \
             sum(1 for h in case['history'] if h['kind'] in ('collect', 'take')) >= 2
 
     def shrink(self, case):
+        if case.get('kind') == 'twin-empty':
+            return
         h = case['history']
         for i in range(len(h)):
             yield dict(case, history=h[:i] + h[i + 1:])
         if len(case['lineages']) == 2 and all(s.get('lineage', 0) == 0 for s in h):
             yield dict(case, lineages=case['lineages'][:1])
 
+    def run_twin(self, case, ctx):
+        """the same pipeline with and without persist() inserted, over datasets WITHOUT partitions (model-free: the property's
+        first clause, observed through the actions that see the partition layout)"""
+        ps = self.ps
+        ctx.note('twin:datasets-without-partitions')
+
+        def build(sc, persist):
+            e = sc.union([])
+            parts = [e.persist() if persist and i in case['persist_at'] else e for i in range(case['n'])]
+            u = parts[0]
+            for q in parts[1:]:
+                u = u.union(q)
+            return u.persist() if persist and 'result' in case['persist_at'] else u
+
+        def observe(r):
+            return {'collect': r.collect(), 'glom': r.glom().collect(), 'count': r.count(), 'glom-count': r.glom().count(),
+                    'partition-sums': r.mapPartitions(lambda it: [sum(it)]).collect(), 'partitions': r.getNumPartitions()}
+        try:
+            plain = observe(build(ps.Context(), False))
+            cached = observe(build(ps.Context(), True))
+        except Exception as e:  # pylint: disable=broad-except
+            return Mismatch('pipeline over datasets without partitions raised', exc(e), None, 'C05:twin:exc')
+        if plain != cached:
+            return Mismatch('inserting persist() into a union of datasets without partitions changes what actions return',
+                            cached, plain, 'C05:twin-empty', relation='spec')
+        return None
+
     def run_case(self, case, ctx):
+        if case.get('kind') == 'twin-empty':
+            return self.run_twin(case, ctx)
         clock = Clock()
         self.cm_mod.time = clock
         try:
